@@ -548,7 +548,9 @@ fn minimise(dir: &PathBuf, case: &PCase, clause: &str) -> PCase {
 }
 
 pub fn run_batch(prop: &str, seed: u64, start: u64, runs: u64, dir: &PathBuf, known: &BTreeSet<String>, digests: bool) -> i32 {
+    simcore::watchdog::begin_case(0, serde_json::json!("calibration"));
     crate::scen::calibrate();
+    simcore::watchdog::end_case();
     let mut res = WorkerResult { property: prop.to_string(), engine: "poll".into(), rule: RULE.to_string(), ..Default::default() };
     let mut kinds_seen: BTreeMap<String, u64> = BTreeMap::new();
     'runs: for run in start..start + runs {
@@ -566,7 +568,9 @@ pub fn run_batch(prop: &str, seed: u64, start: u64, runs: u64, dir: &PathBuf, kn
                 case.polls = polls;
                 case.resume = resume;
                 res.ops += (case.pre.len() + case.during.len() + case.post.len() + 1) as u64;
+                simcore::watchdog::begin_case(run_seed, serde_json::to_value(&case).unwrap());
                 let out = execute(&case);
+                simcore::watchdog::end_case();
                 res.counters.inc(&format!("fault.{}_at_await_{}", if resume { "suspend_resume" } else { "cancel" }, polls));
                 res.counters.inc(&format!("family.{}", spec(case.f).family));
                 let kinds: BTreeSet<&str> = case.during.iter().map(|o| match o { POp::Call { .. } => "call", POp::Adv(_) => "adv", POp::InvWith(_) => "inv_with", POp::InvName => "inv_name", POp::InvTag(_) => "inv_tag" }).collect();
